@@ -861,3 +861,86 @@ func truncate(s string, n int) string {
 }
 
 func truncateBytes(b []byte, n int) string { return truncate(string(b), n) }
+
+// RunEarlyFailureCase (C08, real task runner): a task fails BEFORE its script runs (its log file cannot be created: the
+// task name is longer than a file name may be), next to a sibling that is running and with a dependent.
+//
+//	allow_failure                      : neither fails the job nor blocks the dependent, whatever the mode
+//	no allow_failure, fail-fast        : the running sibling is told to stop, the job ends canceled
+//	no allow_failure, continue-running : the sibling runs to its end, the dependent never runs, the job is not a plain success
+func RunEarlyFailureCase(seed int64, workDir string, variant int) *HistResult {
+	res := &HistResult{Seed: seed, Situations: map[string]map[string]struct{}{}, Evaluations: map[string]int{}}
+	find := func(sig, format string, args ...any) {
+		res.Findings = append(res.Findings, Finding{Props: []string{"C08"}, Sig: sig, Detail: fmt.Sprintf(format, args...), Step: -1})
+	}
+	allow := variant%2 == 0
+	cont := (variant/2)%2 == 1
+	dir, err := os.MkdirTemp(workDir, "early-")
+	if err != nil {
+		res.Inconclusive = err.Error()
+		return res
+	}
+	defer os.RemoveAll(dir)
+	long := strings.Repeat("task-with-a-very-long-name-", 10) // 270 bytes > NAME_MAX
+	def := definition.PipelineDef{Concurrency: 1, ContinueRunningTasksAfterFailure: cont, SourcePath: "gen", Tasks: map[string]definition.TaskDef{
+		long:        {Script: []string{"true"}, AllowFailure: allow},
+		"sibling":   {Script: []string{"sleep 1.5"}},
+		"dependent": {Script: []string{"true"}, DependsOn: []string{long}},
+	}}
+	specs := []gen.PipeSpec{{Name: "p", Def: def, Graph: gen.Graph{Names: []string{long, "sibling", "dependent"}, Deps: map[string][]string{"dependent": {long}}}}}
+	sys, _, _, err := realSys(specs, dir, 300*time.Millisecond)
+	if err != nil {
+		res.Inconclusive = err.Error()
+		return res
+	}
+	defer sys.Close()
+	id, cls := sys.Schedule(0, "p", nil, "u")
+	if cls != "ok" {
+		res.Inconclusive = "schedule: " + cls
+		return res
+	}
+	t0 := time.Now()
+	if !waitJobs(sys, []string{id}, 60*time.Second) {
+		res.Inconclusive = "watchdog: job did not finish"
+		return res
+	}
+	took := time.Since(t0)
+	j, _ := sys.ReadJob(id)
+	st := func(n string) string {
+		if t := j.Task(n); t != nil {
+			return t.Status
+		}
+		return "?"
+	}
+	res.sit("C08", fmt.Sprintf("task fails before its script runs: allow_failure=%v continue=%v", allow, cont))
+	res.Evaluations["C08"]++
+	res.journalf("allow=%v continue=%v: job completed=%v canceled=%v error=%q after %v; tasks long=%s sibling=%s dependent=%s", allow, cont, j.Completed, j.Canceled, j.LastError, took.Round(time.Millisecond), st(long), st("sibling"), st("dependent"))
+	if lt := j.Task(long); lt == nil || lt.Status == "done" && !allow {
+		res.Inconclusive = "the long task name did not make the task fail on this file system"
+		return res
+	}
+	switch {
+	case allow:
+		if j.Canceled || st("sibling") != "done" || st("dependent") != "done" {
+			find("C08:allowed-failure-failed-the-job", "an allow_failure task failed before its script ran (continue=%v): job canceled=%v error=%q, sibling=%s, dependent=%s - an allowed failure neither fails the job nor blocks its dependents", cont, j.Canceled, j.LastError, st("sibling"), st("dependent"))
+		}
+	case !cont:
+		if st("sibling") == "done" {
+			find("C08:fail-fast-did-not-stop-siblings", "a task failed before its script ran (fail-fast pipeline): its running sibling was not told to stop and ran to its end (sibling=%s, job canceled=%v error=%q, job took %v for a sibling that sleeps 1.5 s)", st("sibling"), j.Canceled, j.LastError, took.Round(time.Millisecond))
+		}
+		if st("dependent") == "done" {
+			find("C08:dependent-of-failed-task-ran", "the dependent of a task that failed before its script ran was executed")
+		}
+	default:
+		if st("sibling") != "done" {
+			find("C08:continue-mode-stopped-siblings", "continue_running_tasks_after_failure: the sibling of a failed task is reported %s", st("sibling"))
+		}
+		if st("dependent") == "done" {
+			find("C08:dependent-of-failed-task-ran", "the dependent of a task that failed before its script ran was executed")
+		}
+		if j.Completed && !j.Canceled && !j.HasError {
+			find("C08:job-with-failed-task-reported-plain-success", "a task failed before its script ran, yet the job is reported completed, not canceled and without error")
+		}
+	}
+	return res
+}
